@@ -33,6 +33,7 @@ type Query struct {
 	Model   map[string]string
 	Output  string
 	Quant   bool
+	LoopInits [][2]string
 	KeepFile bool
 	File    string
 }
@@ -62,7 +63,9 @@ type Exec struct {
 	ufDecl  map[string]string
 	globals map[*ssa.Global]uint64
 	recording int
+	recStack []*recorder
 	preSk   map[*CExpr]V
+	ld      *Loaded
 	maxPaths int
 	budget  int
 }
@@ -108,6 +111,7 @@ type State struct {
 	regions  int
 	allocs   []string // allocation size terms (elements), for the allocation bound
 	pool     map[int][]string // instantiation terms by width, for callee quantifiers
+	loopInits [][2]string     // (havocked loop symbol, its value on loop entry): replay prefers first iterations
 }
 
 func (st *State) fork() *State {
@@ -160,6 +164,7 @@ func (st *State) fork() *State {
 	}
 	n.inputs = append([]inputSym(nil), st.inputs...)
 	n.allocs = append([]string(nil), st.allocs...)
+	n.loopInits = append([][2]string(nil), st.loopInits...)
 	n.pool = map[int][]string{}
 	for k, v := range st.pool {
 		n.pool[k] = append([]string(nil), v...)
@@ -240,6 +245,14 @@ func (x *Exec) oblige(st *State, name, kind string, tags []string, goal, pos, te
 	if x.recording > 0 {
 		return
 	}
+	if x.con != nil {
+		for _, k := range x.con.Trust {
+			if k == kind {
+				x.noteAssumption(fmt.Sprintf("%s: obligations of kind %s are trusted, not proved (%s)", x.key, kind, text))
+				return
+			}
+		}
+	}
 	o := x.obls[name]
 	if o == nil {
 		o = &Obligation{Name: name, Kind: kind, Tags: tags, Pos: pos, Text: text, Expect: "unsat"}
@@ -252,6 +265,7 @@ func (x *Exec) oblige(st *State, name, kind string, tags []string, goal, pos, te
 	}
 	q := &Query{Expect: "unsat", PathID: x.pathID, Quant: x.quantified}
 	q.Inputs = append([]inputSym(nil), st.inputs...)
+	q.LoopInits = append([][2]string(nil), st.loopInits...)
 	var b strings.Builder
 	for _, c := range st.script {
 		b.WriteString(c)
